@@ -173,3 +173,59 @@ Section Shipped.
   Lemma shipped_closed S : In tGeneric S -> parent_closed S = true -> closed X S.
   Proof. intros HG Hpc. split; [exact HG|]. intros t Ht Hne. apply sh_parent; assumption. Qed.
 End Shipped.
+
+(* ---- the same facts for ANY context over the shipped relation table: any sequence type, any state, any
+   guards and transformers - only the SHAPE of the table (sources, identity/inference, declaring type) matters *)
+Section AnyBackend.
+  Context {D St L F : Type} (X0 : ctx ty D St L F) (mkr : ty -> ty * bool * bool * bool -> relation ty D St).
+  Hypothesis HX_eqb : T_eqb X0 = ty_eqb.
+  Hypothesis HX_rel : forall t, relations X0 t = map (mkr t) (declared t).
+  Hypothesis HX_gen : forall t, is_generic X0 t = ty_eqb t tGeneric.
+  Hypothesis HX_G : Generic X0 = tGeneric.
+  Hypothesis HX_si : forall l, NoDup l -> Permutation (set_iter X0 l) l.
+  Hypothesis Hm1 : forall t d, related_type (mkr t d) = related d.
+  Hypothesis Hm2 : forall t d, inferential (mkr t d) = negb (is_identity d).
+  Hypothesis Hm3 : forall t d, type_ (mkr t d) = t.
+
+  Lemma any_T1 t : t <> tGeneric -> length (filter is_identity (declared t)) = 1.
+  Proof.
+    intro Hne. destruct shipped_table_facts as [H1 _]. unfold T1 in H1. rewrite forallb_forall in H1.
+    specialize (H1 t (all_types_complete t)). destruct (ty_eqb t tGeneric) eqn:E; [apply ty_eqb_spec in E; contradiction|].
+    apply Nat.eqb_eq in H1. unfold identity_parents in H1. rewrite map_length in H1. exact H1.
+  Qed.
+
+  Theorem any_table_ok : table_ok X0 rk.
+  Proof.
+    split; [rewrite HX_eqb; exact ty_eqb_spec|]. split.
+    { intros t r Hr. rewrite HX_rel in Hr. apply in_map_iff in Hr. destruct Hr as [d [Ed _]]. subst. apply Hm3. }
+    split; [exact HX_si|]. split; [intro t; rewrite HX_gen, HX_G; apply ty_eqb_spec|].
+    split; [rewrite HX_G, HX_rel; reflexivity|]. split; [|split].
+    - intros t r r' Hr Hr' E. rewrite HX_rel in Hr, Hr'. apply in_map_iff in Hr. apply in_map_iff in Hr'.
+      destruct Hr as [d [Ed Hd]], Hr' as [d' [Ed' Hd']]. subst r r'. rewrite !Hm1 in E.
+      f_equal. apply (NoDup_map_inj related (declared t)); try assumption.
+      apply nodupb_NoDup. destruct shipped_table_facts as [_ [_ [_ [H4 _]]]]. unfold T4_nodup_sources in H4.
+      rewrite forallb_forall in H4. apply H4. apply all_types_complete.
+    - intros t r r' Hr Hr' E E'. rewrite HX_rel in Hr, Hr'. apply in_map_iff in Hr. apply in_map_iff in Hr'.
+      destruct Hr as [d [Ed Hd]], Hr' as [d' [Ed' Hd']]. subst r r'. rewrite Hm2 in E, E'.
+      apply negb_false_iff in E. apply negb_false_iff in E'.
+      destruct (ty_eqb t tGeneric) eqn:Eg; [apply ty_eqb_spec in Eg; subst; destruct Hd|].
+      f_equal. apply (in_filter_one is_identity (declared t)); try assumption. apply any_T1. intro H. subst. discriminate.
+    - intros t r Hr. rewrite HX_rel in Hr. apply in_map_iff in Hr. destruct Hr as [d [Ed Hd]]. subst r. rewrite Hm1.
+      destruct shipped_table_facts as [_ [_ [H3 _]]]. unfold T3 in H3. rewrite forallb_forall in H3.
+      specialize (H3 t (all_types_complete t)). rewrite forallb_forall in H3. apply Nat.ltb_lt. exact (H3 d Hd).
+  Qed.
+
+  Theorem any_closed S : In tGeneric S -> parent_closed S = true -> closed X0 S.
+  Proof.
+    intros HG Hpc. split; [rewrite HX_G; exact HG|]. intros t Ht Hne. rewrite HX_G in Hne.
+    pose proof (any_T1 t Hne) as H1.
+    destruct (filter is_identity (declared t)) as [|d [|? ?]] eqn:Ef; simpl in H1; try discriminate.
+    assert (Hd : In d (filter is_identity (declared t))) by (rewrite Ef; left; reflexivity).
+    apply filter_In in Hd. destruct Hd as [Hd Hi].
+    exists (mkr t d). split; [rewrite HX_rel; apply in_map; exact Hd|].
+    split; [rewrite Hm2, Hi; reflexivity|]. rewrite Hm1.
+    unfold parent_closed in Hpc. rewrite forallb_forall in Hpc. specialize (Hpc t Ht). rewrite forallb_forall in Hpc.
+    specialize (Hpc (related d)). unfold identity_parents in Hpc. rewrite Ef in Hpc. specialize (Hpc (or_introl eq_refl)).
+    apply existsb_exists in Hpc. destruct Hpc as [y [Hy E]]. apply ty_eqb_spec in E. subst. exact Hy.
+  Qed.
+End AnyBackend.
